@@ -11,12 +11,15 @@ def fb(f):
     return struct.unpack("<Q", struct.pack("<d", float(f)))[0]
 
 
+BOOST = int(os.environ.get("VERIF_BOOST", "1"))
+
+
 def run(rng, tier, res=None):
     load_opfython()
     import opfython.math.general as G
     res = res or Result("measures")
     lines, obs, metas = [], [], []
-    ncases = 500 if tier == "quick" else 8000
+    ncases = (500 * BOOST) if tier == "quick" else 8000
 
     def viol(msgs, meta):
         for m in (msgs if isinstance(msgs, list) else [msgs])[:3]:
